@@ -297,7 +297,16 @@ simpleEscape = r"""[bfnrt'"\\]"""
 hexEscape = r'[xX][0-9a-fA-F]{1,4}'
 escapeSequence = fr'[\\](({simpleEscape})|({hexEscape}))'
 cChar = fr"[^'\\\n\r]|({escapeSequence})"
-sChar = fr'[^"\\\n\r]|({escapeSequence})'
+
+# In a string value, only the first hex character is matched as part of a hex
+# escape; any further hex characters match as normal characters. This matches
+# the same strings as using hexEscape, but is not ambiguous. With hexEscape,
+# a string value with many hex escapes that is not terminated in its line
+# causes the regexp engine to try all combinations (exponential run time).
+# The value of the hex escapes is determined in _fixStringValue().
+sHexEscape = r'[xX][0-9a-fA-F]'
+sEscapeSequence = fr'[\\](({simpleEscape})|({sHexEscape}))'
+sChar = fr'[^"\\\n\r]|({sEscapeSequence})'
 
 charvalue_re = fr"'({cChar})'"
 
